@@ -39,11 +39,17 @@ var c02Messages = []string{
 	strings.Repeat("long-0123456789 ", 256),
 	// 24 KB of non-ASCII text: more than 64 KiB once percent-encoded (one trailer line)
 	strings.Repeat("☃ü", 24*1024/5),
+	// text that is not valid UTF-8 (a plain Go error quoting Latin-1 input): only with plain errors,
+	// and the expectation is the text with U+FFFD for the offending bytes
+	"caf\xe9 au lait \xff",
 }
 
 // c02LongMsg is the index of the message whose encoded form exceeds 64 KiB;
 // it is exercised by the dedicated large-error cases only.
 const c02LongMsg = 11
+
+// c02BadUTF8Msg is the index of the message that is not valid UTF-8.
+const c02BadUTF8Msg = 12
 
 func c02Details(i int) []proto.Message {
 	d1 := wrapperspb.String("detail one ☃")
@@ -110,6 +116,9 @@ func (k c02Case) key() string {
 
 func (k c02Case) message() string {
 	msg := c02Messages[k.Msg]
+	if k.Msg == c02BadUTF8Msg {
+		msg = strings.ToValidUTF8(msg, "\uFFFD")
+	}
 	switch k.Cause {
 	case 1:
 		return msg + ": " + context.Canceled.Error()
@@ -396,6 +405,21 @@ func c02Cases(thorough bool) []c02Case {
 							}
 						}
 					}
+				}
+			}
+		}
+	}
+	// a plain Go error whose text is not valid UTF-8
+	for _, p := range AllProtos {
+		for _, js := range []bool{false, true} {
+			for _, kind := range AllKinds {
+				cfg := Cfg{Proto: p, JSON: js, Comp: CompDefault, Kind: kind, HTTP: 2}
+				sents := []int{0}
+				if kind.ServerStreams() {
+					sents = []int{0, 1}
+				}
+				for _, sent := range sents {
+					out = append(out, c02Case{Cfg: cfg, Code: 0, Msg: c02BadUTF8Msg, Details: 0, Meta: 0, Sent: sent})
 				}
 			}
 		}
